@@ -47,7 +47,7 @@ CLAIMED["C03"] = dict(
 CLAIMED["C04"] = dict(
     text="Proof (Lean 4): on every store model (any kind/config/scheduling state), for ARBITRARY requests (any keys, any limits per request, valid or not) and any timestamp order: a request answered with an error, a denial, or carrying quantity 0 leaves the whole store state literally unchanged and issues no write (C04_no_effect_state); "
          "hence deleting it from any history changes no other response (C04_deleting_changes_nothing); rejected requests issue no store operation at all, for any Store implementation (C04_error_no_state). "
-         "O leg: base history vs history with inserted no-effect requests on the real code, plus entry counts through the snapshot hook.",
+         "O leg: base history vs history with inserted no-effect requests on the real code, plus entry counts through the snapshot hook; the wire mode sends zero-quantity and invalid requests over HTTP, gRPC and RESP and checks that the library saw exactly what was sent.",
     design="§5 C04", technique="Lean 4 proof (state-equality lemma + history surgery) + insertion differential runs",
     note=COMMON_NOTE + " Uses C08_no_internal (a write after a get at the same instant succeeds on the built-in stores).")
 CLAIMED["C07"] = dict(
@@ -58,12 +58,12 @@ CLAIMED["C07"] = dict(
     note=COMMON_NOTE + " The pre-fix 64-bit wrapping trigger is kept as Prob.firesWrapped with the kernel-evaluated gap witness C07_wrapped_trigger_gap (finding F8, fixed); the harness runs probabilistic stores from the state after 10^9..10^12 writes (hook verif_set_operations_count); the counting step (entries <= |active set|) is C07_entries_bounded_by_active. The u64 operation counter is modelled as an unbounded natural number.")
 CLAIMED["C08"] = dict(
     text="Proof (Lean 4) over the bit-precise model for ALL i64 limits/quantity, every emission interval 0 <= E < 2^64 (universally quantified: no float reasoning), every stored value, timestamps 1970..2200: error classification with no store access (C08_errors), limit = burst, 0 <= remaining <= burst, retry = 0 iff admitted, all durations in range (C08_decision_fields), fresh key admits q <= burst incl. every saturation case (C08_fresh_admits), never an internal error with the built-in stores (C08_no_internal, _history), and the explicit arithmetic side-conditions of every panic site (C08_panic_sites). "
-         "M/O: boundary lattice 16^4 (thorough 24^4) x timestamps x fresh/pre-populated x 3 stores, harness built with overflow checks on and off, every call under catch_unwind.",
+         "M/O: boundary lattice 16^4 (thorough 24^4) x timestamps x fresh/pre-populated x 3 stores, plus multi-key histories on every store configuration (hot keys that overwrite expired-but-unswept entries dozens of times between cleanups), harness built with overflow checks on and off, every call under catch_unwind; a panic in any mode of the core harness is reported as a C08 violation.",
     design="§5 C08", technique="Lean 4 proof over saturating-i64 model (case analysis on each clamp) + exhaustive boundary-lattice differential runs in debug and release",
     note=COMMON_NOTE + " 'No panic' = the model is total AND C08_panic_sites discharges each Rust panic site (sub, div, casts, SystemTime+Duration); that the listed sites are all the sites is by reading rate_limit (no unsafe, no indexing).")
 CLAIMED["C18"] = dict(
     text="Proof (Lean 4) over a soft-float (binary64, round-to-nearest-even) replica of from_count_and_period: for 1 <= period <= 9e6 and 1 <= count <= period*1e9 the interval is exactly floor(period*1e9/count) (C18_floor; bracket, rate-not-below, excess < 1/E corollaries); unit constructors agree with the general one for every n in 1..2^32-1 (C18_unit_constructors); non-positive arguments give the blocking rate (C18_nonpositive_blocking). "
-         "M: Rate::period() vs the soft-float model on a boundary lattice, divisors/near-divisors and random points in and outside D; O: the double inequality in u128 on the real code.",
+         "M: Rate::period() vs the soft-float model on a boundary lattice, divisors/near-divisors and random points in and outside D; O: the double inequality in u128 on the real code; limiter-level histories with sibling limits (limits that differ in one field, by one, doubled or by a multiple of 2^32) against the exact-quotient bucket.",
     design="§5 C18", technique="Lean 4 proof about a soft-float model (rounding lemma rneDiv_shift_floor) + differential runs against the hardware floats",
     note=COMMON_NOTE + " IEEE-754 conformance of the hardware/LLVM is trusted; the soft-float model is validated only by the differential runs.")
 
